@@ -757,6 +757,66 @@ func (x *SExec) apply(i int, op SOp) *Fail {
 				x.Labels["add:ok"]++
 			}
 		}
+	case "addlate":
+		// a slow add is overtaken: the request for a has been admitted and is connecting
+		// to its replica (controller lock released) when b is added, rebuilt and promoted;
+		// then a's connection completes. The replication factor bounds the membership
+		// whatever the order (the invariants are checked by Verify afterwards).
+		a, b := op.Node%len(st.Nodes), int(op.N)%len(st.Nodes)
+		if a == b {
+			b = (a + 1) % len(st.Nodes)
+		}
+		if a == b || x.woNode() >= 0 || x.listed() >= x.P.RF || x.listed() == 0 || x.Mode[a] != "" || x.Mode[b] != "" ||
+			st.Nodes[a].S.Replica() != nil || st.Nodes[b].S.Replica() != nil {
+			return nil
+		}
+		for j, m := range x.Mode {
+			if m == types.ERR || (m == "" && st.Mode(j) != "") {
+				return nil
+			}
+		}
+		src := x.rebuildSource()
+		if src < 0 {
+			return nil
+		}
+		gate := make(chan struct{})
+		st.Fac.setGateFor(st.Nodes[a].Addr, gate)
+		base := st.Fac.nCreates()
+		resA := make(chan error, 1)
+		go func() { resA <- c.AddReplica(st.Nodes[a].Addr) }()
+		for t0 := time.Now(); st.Fac.nCreates() < base+1 && len(resA) == 0 && time.Since(t0) < 2*time.Second; {
+			time.Sleep(time.Millisecond)
+		}
+		errB := c.AddReplica(st.Nodes[b].Addr)
+		var errP error
+		if errB == nil {
+			x.Mode[b] = types.WO
+			x.AttAck[b] = len(x.Acked)
+			x.AttLog[b] = len(st.Nodes[b].LogCopy())
+			delete(x.subBlockWO, b)
+			delete(x.Frozen, b)
+			if errP = st.Promote(src, b); errP == nil {
+				x.Mode[b] = types.RW
+			}
+		}
+		close(gate)
+		st.Fac.setGate(nil)
+		var errA error
+		select {
+		case errA = <-resA:
+		case <-time.After(60 * time.Second):
+			return sfail("addlate|hangs", "AddReplica did not return within 60 s", "C18", "C14")
+		}
+		x.tracef("addlate: add n%d parked in its connection; add n%d -> %v, promote -> %v; then n%d's add completes -> %v; listed %v", a, b, errB, errP, a, errA, st.C.VerifState().Replicas)
+		x.Labels["addlate"]++
+		if m := st.Mode(a); m == types.WO && x.Mode[a] == "" {
+			x.Mode[a] = types.WO
+			x.AttAck[a] = len(x.Acked)
+			x.AttLog[a] = len(st.Nodes[a].LogCopy())
+			delete(x.subBlockWO, a)
+			delete(x.Frozen, a)
+			x.Labels["add:ok"]++
+		}
 	case "errio":
 		// a replica is marked failed and I/O follows at once, before the monitor
 		// goroutine has removed it (with pings on, a stalled ping keeps the
